@@ -191,9 +191,9 @@ PLANS["C01"]["bounds"]["quick"].append("sampled native probes (not proofs): orde
 PLANS["C01"]["native_exhaustive"] = {"quick": [("u6::flat_perm_desc_4", 1, 400000000), ("u6::flat_ltr_4", 1, 400000000), ("u6::attach_parse_4", 1, 400000000), ("u6::attach_flatten_4", 1, 400000000),
                                                ("u6::attach_flatten_5", 1, 400000000)],
                                      "thorough": [("u6::flat_perm_desc_4", 1, 400000000), ("u6::flat_ltr_4", 1, 400000000), ("u6::attach_parse_4", 1, 400000000), ("u6::attach_flatten_4", 1, 400000000),
-                                                  ("u6::attach_parse_5", 1, 400000000), ("u6::attach_flatten_5", 1, 400000000), ("u6::flat_ltr_5", 1, 400000000), ("u6::deep_ltr_5", 1, 400000000)]}
+                                                  ("u6::attach_parse_5", 1, 400000000), ("u6::attach_flatten_5", 1, 400000000), ("u6::flat_ltr_5", 1, 400000000)]}
 PLANS["C01"]["bounds"]["quick"].append("exhaustive native enumeration (explicit runs of the same contract bodies on the real code; bounded stand-in, not a proof): flat order function with 4 operators (the size CBMC cannot finish), attachment statements with 4 and 5 operators; 3-entry table with base priorities 0..=3, depth 0..=2, all flags and operand kinds")
-PLANS["C01"]["bounds"]["thorough"].append("exhaustive native enumeration: additionally flat and deep order functions (left-to-right obligation) and the parser attachment statement with 5 operators (1.9 billion runs each for the order functions)")
+PLANS["C01"]["bounds"]["thorough"].append("exhaustive native enumeration: additionally the flat order function (left-to-right obligation, 1.9 billion runs) and the parser attachment statement with 5 operators")
 PLANS["C13"] = {
     "level": "model_checking",
     "kani": {"quick": ["u5::is_operator_binary_all", "u5::numeric_text_4"], "thorough": ["u5::is_operator_binary_all", "u5::numeric_text_4", "u5::numeric_text_6"]},
@@ -205,6 +205,10 @@ PLANS["C13"] = {
     "bounds": {"quick": ["sign rule: complete", "number recogniser: all ASCII strings of <= 4 bytes"], "thorough": ["sign rule: complete", "number recogniser: all ASCII strings of <= 6 bytes"]},
     "explanation": "Partial: the sign rule (is_operator_binary) over its complete finite domain and the number recogniser (is_numeric_text) for all short ASCII strings.",
 }
+PLANS["C13"]["native_exhaustive"] = {"quick": [("c13::lexical_%d" % n, 1, 400000000) for n in (1, 2, 3, 4)], "thorough": [("c13::lexical_%d" % n, 1, 400000000) for n in (1, 2, 3, 4, 5)]}
+PLANS["C13"]["bounds"]["quick"].append("exhaustive native enumeration (explicit runs of the contract body c13::lexical_* on the real tokenizer; bounded stand-in, not a proof): tokenize_and_analyze against a reference tokenizer written from the property text on EVERY concatenation of 1..=4 pieces of a 26-piece palette (operator / constant names, digits, letters, Greek letters, blanks, parentheses, comparison signs, a braced name) x 2 operator tables (default-shaped; binary `log` next to unary log2 / log10)")
+PLANS["C13"]["bounds"]["thorough"].append("exhaustive native enumeration: as quick plus every concatenation of 5 pieces (12.9 million texts)")
+PLANS["C13"]["not_covered"] = ["under a deductive contract: operator-name matching, longest match, identifier look-ahead (regex) and brace scanning inside tokenize_and_analyze — regex / lazy_static are out of CBMC's and Verus' reach; they are only enumerated natively over a finite palette (bounds)", "the comma (function-call) rewriting of the tokenizer", "texts outside the palette"]
 PLANS["C13"]["native_probes"] = {"quick": [("u5::numeric_text_utf8", 200000)], "thorough": [("u5::numeric_text_utf8", 2000000)]}
 PLANS["C13"]["bounds"]["quick"].append("sampled native probe (not a proof): 200000 strings of up to 12 characters incl. multi-byte ones")
 PLANS["C09"] = {
@@ -212,9 +216,13 @@ PLANS["C09"] = {
     "kani": {"quick": ["u5::partial_index"], "thorough": ["u5::partial_index"]},
     "owns_unprefixed": True,
     "trusted_base": [A_CBMC, A_FMT, A_NOOVF], "assumptions": [A_CBMC, A_FMT, A_NOOVF],
-    "not_covered": ["that the index check runs for every index before any work (partial_iter_relaxed)", "every variable-list claim of C09 (DeepEx)", "n-th / iterated / mixed derivative equalities"],
-    "bounds": {"all": ["none: all usize pairs"]},
-    "explanation": "Thin partial claim: check_partial_index(i, n, _) is Err iff i >= n for all usize pairs (complete, loop-free).",
+    "not_covered": ["under a deductive contract: everything except check_partial_index — partial / partial_nth / partial_iter(_relaxed), to_deepex / reset_vars and the DeepEx arithmetic behind them do not finish under CBMC (one-node expression: 25 min, no result) and are outside Verus (trait objects, closures, SmallVec). They are only enumerated natively over a finite palette (bounds)",
+                    "expressions outside the 12-expression palette, index sequences longer than 4, value types other than f64"],
+    "bounds": {"all": ["check_partial_index: none, all usize pairs (Kani, complete)",
+                       "exhaustive native enumeration (explicit runs of the contract body c09::bookkeeping_* on the real public API; bounded stand-in, not a proof): 12 expressions x {FlatEx, DeepEx} x {strict, relaxed} x every index sequence of length 0..=4 with entries 0..=nvars+1 — out-of-range index is an error at every position, variable list preserved after every step, iterated == sequential, n-th == n singles, order zero == identity, mixed partials agree (compared at two evaluation points)"]},
+    "native_exhaustive": {"quick": [("c09::bookkeeping_flat", 1, 400000000), ("c09::bookkeeping_deep", 1, 400000000)],
+                          "thorough": [("c09::bookkeeping_flat", 1, 400000000), ("c09::bookkeeping_deep", 1, 400000000)]},
+    "explanation": "Proved: check_partial_index(i, n, _) is Err iff i >= n for all usize pairs (complete, loop-free). Bounded, NOT proved: the bookkeeping clauses on the public differentiation API, enumerated natively over a finite palette.",
 }
 C07_SLOW_PREFIXES = [(0, 4), (0, 5), (0, 6), (1, 4), (1, 5), (1, 6), (3, 4), (3, 5), (3, 6), (4, 5), (6, 5)]
 C07_LEN3 = ["c07::l3_%d%d" % (a, b) for a in range(7) for b in range(7) if (a, b) not in C07_SLOW_PREFIXES]
@@ -223,14 +231,14 @@ PLANS["C07"] = {
     "kani": {"quick": ["c07::preconditions_len_0", "c07::preconditions_len_1", "c07::preconditions_len_2"] + C07_LEN3,
              "thorough": ["c07::preconditions_len_0", "c07::preconditions_len_1", "c07::preconditions_len_2"] + C07_LEN3},
     # exhaustive native enumeration: (harness, payload radix, max runs per shard)
-    "native_exhaustive": {"quick": [("c07::preconditions_len_%d" % n, 1, 400000000) for n in range(3, 10)] + [("c07::paren_walk_%d" % n, 1, 400000000) for n in (10, 12, 14, 16)],
-                          "thorough": [("c07::preconditions_len_%d" % n, 1, 400000000) for n in range(3, 11)] + [("c07::paren_walk_%d" % n, 1, 400000000) for n in (10, 12, 14, 16)]},
+    "native_exhaustive": {"quick": [("c07::preconditions_len_%d" % n, 1, 400000000) for n in range(3, 10)] + [("c07::paren_walk_%d" % n, 1, 400000000) for n in (10, 12, 14, 16)] + [("c13::unknown_rejected_%d" % n, 1, 400000000) for n in (2, 3, 4)] + [("c07::single_damage", 1, 400000000)],
+                          "thorough": [("c07::preconditions_len_%d" % n, 1, 400000000) for n in range(3, 11)] + [("c07::paren_walk_%d" % n, 1, 400000000) for n in (10, 12, 14, 16)] + [("c13::unknown_rejected_%d" % n, 1, 400000000) for n in (2, 3, 4)] + [("c07::single_damage", 1, 400000000)]},
     "kani_timeout": {"quick": 900, "thorough": 3000},
     "owns_unprefixed": True,
     "trusted_base": [A_CBMC, A_FMT, A_NOOVF], "assumptions": [A_CBMC, A_FMT, A_NOOVF],
-    "not_covered": ["operand/operator count check (make_expression, DeepEx::new)", "unknown-character rejection (tokenizer)", "token sequences longer than the bounds"],
+    "not_covered": ["the operand/operator count check (make_expression, DeepEx::new) is not under a deductive contract: only reached by c07::single_damage (single-point damages of 10 expressions through all five parsers, native enumeration, debug build)", "unknown-character rejection by the regex tokenizer is not under a deductive contract: only enumerated natively over a 26-piece palette (c13::unknown_rejected_*, bounds)", "token sequences longer than the bounds"],
     "bounds": {"quick": ["Kani (symbolic token kinds and payloads): all token sequences of length 0, 1, 2 and 3 over 7 token kinds (length 3: 38 of the 49 two-token prefixes, each with a symbolic third token; the 11 prefixes with a legally placed operator in the middle do not finish in 15 min)",
-                         "exhaustive native enumeration (explicit runs of the same contract body on the real code; bounded stand-in, not a proof): EVERY sequence of 3..=9 tokens over the 7 token kinds (number payload fixed), and every pair-valid sequence of 10, 12, 14 and 16 tokens over {number, (, ), binary operator} for the parenthesis walk / trailing-operator rule"],
+                         "exhaustive native enumeration (explicit runs of the same contract body on the real code; bounded stand-in, not a proof): EVERY sequence of 3..=9 tokens over the 7 token kinds (number payload fixed), and every pair-valid sequence of 10, 12, 14 and 16 tokens over {number, (, ), binary operator} for the parenthesis walk / trailing-operator rule; tokenize_and_analyze rejects every text of 2..=4 pieces of a 26-piece palette (incl. `=`, U+03AC, which lies between the two Greek ranges, and the two-byte blank-like U+00A0) that the reference tokenizer of C13 cannot tokenise; c07::single_damage: 10 well-formed expressions x {delete a parenthesis, insert ( or ) anywhere, append a binary operator, extra operand beside any operand, illegal character anywhere} x {FlatEx::parse, parse_wo_compile, DeepEx::parse, eval_str, parse_val} never parses"],
                "thorough": ["as quick, plus every sequence of 10 tokens over the 7 kinds (282 million runs). Kani length 4 was tried: most of the 343 harnesses with three fixed kinds take 3-19 s, a few do not finish in 10 min"]},
     "explanation": "Partial, bounded: check_parsed_token_preconditions rejects exactly the documented malformed shapes for every short token sequence.",
 }
@@ -263,8 +271,7 @@ PLANS["C04"] = {
     "kani_timeout": {"quick": 900, "thorough": 2400},
     "owns_unprefixed": True,
     "trusted_base": [A_CBMC, A_FMT, A_NOOVF], "assumptions": [A_CBMC, A_FMT, A_NOOVF],
-    "not_covered": ["brace tokenisation", "find_parsed_vars / find_var_index (name collection, order and lookup)", "reset_vars / var_names_union and derived expressions",
-                    "the deep form's guards"],
+    "not_covered": ["brace tokenisation", "find_parsed_vars / find_var_index (name collection, order and lookup)", "reset_vars / var_names_union, derived expressions and the deep form's guards are not under a deductive contract (DeepEx is out of CBMC's and Verus' reach): only enumerated natively over a finite palette (bounds)", "substitution (subs)"],
     "bounds": {"quick": ["one-node FlatEx over two variables, symbolic variable index; eval / eval_relaxed: slices of symbolic length 0..=4; eval_vec / eval_iter: 1 and 3 values (error paths)"],
                "thorough": ["as quick, plus eval_vec / eval_iter with exactly 2 values (the consuming evaluation; 23 min each)"]},
     "explanation": "Partial, bounded: arity guards and index binding of the flat form.",
@@ -310,8 +317,10 @@ KANI_TARGETS = {
 
 PLANS["C04"]["native_probes"] = {"quick": [("c04::var_lookup_probe", 200000)], "thorough": [("c04::var_lookup_probe", 2000000)]}
 PLANS["C04"]["bounds"]["quick"].append("sampled native probe (not a proof): find_parsed_vars / find_var_index on 200000 random token lists over 12 tricky names")
-PLANS["C04"]["native_exhaustive"] = {"quick": [("c04::var_lookup_3", 1, 400000000), ("c04::var_lookup_5", 1, 400000000), ("c04::var_lookup_6", 1, 400000000)],
-                                     "thorough": [("c04::var_lookup_3", 1, 400000000), ("c04::var_lookup_5", 1, 400000000), ("c04::var_lookup_6", 1, 400000000), ("c04::var_lookup_7", 1, 400000000)]}
+C04_API = [("c04::var_lookup_spill", 1, 400000000), ("c04::arity_api", 1, 400000000), ("c04::derived_names", 1, 400000000), ("c04::derivative_names", 1, 400000000)]
+PLANS["C04"]["native_exhaustive"] = {"quick": [("c04::var_lookup_3", 1, 400000000), ("c04::var_lookup_5", 1, 400000000), ("c04::var_lookup_6", 1, 400000000)] + C04_API,
+                                     "thorough": [("c04::var_lookup_3", 1, 400000000), ("c04::var_lookup_5", 1, 400000000), ("c04::var_lookup_6", 1, 400000000), ("c04::var_lookup_7", 1, 400000000)] + C04_API}
+PLANS["C04"]["bounds"]["quick"].append("exhaustive native enumeration of contract bodies on the public API (bounded stand-in, not a proof): name collection with 15..=20 distinct names + 3 enumerated tokens (beyond the inline capacity 16); arity of eval / eval_relaxed / eval_vec / eval_iter on parsed expressions with n in {0,1,2,3,15,16,17,18} variables and 0..=n+2 values, flat and deep form; sorted-union name list, arity guards and by-name value binding of a op b for 10 x 10 operand expressions x {+,-,*,/} x {FlatEx::operate_binary, DeepEx::operate_binary, DeepEx's std operators}; name list and arity guards of second derivatives of 6 expressions")
 PLANS["C04"]["bounds"]["quick"].append("exhaustive native enumeration (explicit runs on the real code; bounded stand-in, not a proof): find_parsed_vars / find_var_index on EVERY list of 3, 5 and 6 tokens over 12 tricky names + number")
 PLANS["C04"]["bounds"]["thorough"].append("exhaustive native enumeration: additionally every list of 7 tokens (62.7 million)")
 PLANS["C04"]["not_covered"] = [x for x in PLANS["C04"]["not_covered"] if not x.startswith("find_parsed_vars")] + ["find_parsed_vars / find_var_index are not under a Kani contract (CBMC needs > 5 GB on one concrete token shape): enumerated exhaustively for short lists and sampled for longer ones, natively"]
